@@ -16,6 +16,7 @@ package main
 import (
 	"bytes"
 	"context"
+	"encoding/hex"
 	"encoding/json"
 	"flag"
 	"fmt"
@@ -91,6 +92,10 @@ type history struct {
 	senders  []sender
 	extra    []staking.Address // fresh and reserved destinations
 	proposal uint64            // number of proposals submitted so far
+	// the harness's own bookkeeping of WHO must be slashed / rewarded (not read from events)
+	frozen   map[int]bool   // validators frozen by an earlier slash (no unfreeze transactions are generated)
+	sigTotal uint64         // blocks counted in the current signing period (EpochSigning.Total)
+	sigBy    map[int]uint64 // blocks signed per validator entity in the period
 	sum      *coqout.Summary
 	w        *coqout.Writer
 }
@@ -101,7 +106,7 @@ func pickWeights(r *prng.R) [3]uint64 {
 }
 
 func newHistory(seed uint64, run int, sum *coqout.Summary, w *coqout.Writer) (*history, error) {
-	h := &history{seed: seed, run: run, sum: sum, w: w}
+	h := &history{seed: seed, run: run, sum: sum, w: w, frozen: map[int]bool{}, sigBy: map[int]uint64{}}
 	h.rng = prng.New(seed*1000003 + uint64(run)*7919 + 17)
 	gr := h.rng.Fork()
 	wts := pickWeights(gr)
@@ -868,6 +873,7 @@ func (h *history) warmup() (*blockOut, error) {
 		return nil, err
 	}
 	h.sum.Count("S_blocks", "checked")
+	h.sigTotal++ // updateEpochSigning of the first block: no votes
 	h.sum.Count("blocks", "first-block(S only)")
 	out := &blockOut{violations: checkDump(post.dump), burned: new(big.Int)}
 	if _, err := h.sanity.Replay(in, txs); err != nil {
@@ -1057,30 +1063,63 @@ func (h *history) block(blockNo int, total int) (*blockOut, error) {
 		addOp("reward_proposer", fmt.Sprintf("(ORewardSingle %s %s %d %d %s %s)", scaleAt(p, epoch), qs(&p.RewardFactorBlockProposed),
 			len(voters), nElig, x.of(propEnt), h.rateOf(height-1, propEnt, epoch, p)), "ROk")
 	}
-	bev := flatten(res.BeginEvents)
-	split := len(bev)
-	for i, e := range bev {
-		if e.app == "oasis_event_200_scheduler" && e.kind == "elected" {
-			split = i
-			break
+	// signing bookkeeping (signing_rewards.go updateEpochSigning): every block, every voting entity
+	h.sigTotal++
+	for _, vt := range in.LastCommit.Votes {
+		if vt.SignedLastBlock {
+			if gv := h.g.ValidatorByConsAddr(vt.Validator.Address); gv != nil {
+				h.sigBy[gv.Index]++
+			}
 		}
 	}
-	for _, e := range bev[:split] {
+	// slashing.go onEvidenceByzantineConsensus: the node's entity is slashed unless the node is frozen
+	bev := flatten(res.BeginEvents)
+	nTake := 0
+	for _, e := range bev {
 		if e.app == stakingEv && e.kind == "take_escrow" {
-			var te staking.TakeEscrowEvent
-			if err := events.DecodeValue(e.val, &te); err != nil {
-				panic(err)
-			}
-			sl := p.Slashing[staking.SlashConsensusEquivocation]
-			addOp("slash", fmt.Sprintf("(OSlash %s %s)", x.of(te.Owner), qs(&sl.Amount)), "ROk")
+			nTake++
 			h.sum.Count("S_events", "take_escrow")
 		}
 	}
+	nSlash := 0
+	for _, mb := range mis {
+		gv := h.g.ValidatorByConsAddr(mb.Validator.Address)
+		if gv == nil {
+			continue
+		}
+		if h.frozen[gv.Index] {
+			h.sum.Count("evidence", "against-frozen-validator(no slash)")
+			continue
+		}
+		sl := p.Slashing[staking.SlashConsensusEquivocation]
+		addOp("slash", fmt.Sprintf("(OSlash %s %s)", x.of(gv.Entity.Address()), qs(&sl.Amount)), "ROk")
+		nSlash++
+		if sl.FreezeInterval > 0 {
+			h.frozen[gv.Index] = true
+		}
+	}
+	if nTake > nSlash {
+		out.violations = append(out.violations, fmt.Sprintf("height %d: %d TakeEscrow events but only %d slashes are due", height, nTake, nSlash))
+	}
 	if epochChanged {
+		// scheduler.go elect: every entity that got a validator elected, in address order
+		cv, err := h.reps[0].CurrentValidators(0)
+		if err != nil {
+			return nil, err
+		}
+		var el []staking.Address
+		for _, gv := range h.g.Validators {
+			pk := gv.Cons.Public()
+			if _, ok := cv[hex.EncodeToString(pk[:])]; ok {
+				el = append(el, gv.Entity.Address())
+			}
+		}
+		sort.Slice(el, func(i, j int) bool { return bytes.Compare(el[i][:], el[j][:]) < 0 })
 		var who []string
-		for _, a := range rewarded(bev[split:]) {
+		for _, a := range el {
 			who = append(who, fmt.Sprintf("(%s, %s)", x.of(a), h.rateOf(height-1, a, epoch, p)))
 		}
+		h.sum.Count("rewards_election_entities", fmt.Sprint(len(el)))
 		f := h.g.Doc.Scheduler.Parameters.RewardFactorEpochElectionAny
 		addOp("rewards_election", fmt.Sprintf("(ORewards %s %s %s)", scaleAt(p, epoch), qs(&f), coqout.List(who)), "ROk")
 	}
@@ -1122,11 +1161,30 @@ func (h *history) block(blockNo int, total int) (*blockOut, error) {
 				h.sum.Count("S_events", "debonding-completed")
 			}
 		}
-		var who []string
-		for _, a := range rewarded(eev) {
-			who = append(who, fmt.Sprintf("(%s, %s)", x.of(a), h.rateOf(height, a, epoch, p)))
+		// signing_rewards.go rewardEpochSigning: entities that signed at least num/den of the
+		// period's blocks, ordered by entity public key (state.go EligibleEntities)
+		num, den := p.SigningRewardThresholdNumerator, p.SigningRewardThresholdDenominator
+		if den != 0 {
+			var elig []*muxdrv.Validator
+			if h.sigTotal > 0 {
+				for _, gv := range h.g.Validators {
+					if c, ok := h.sigBy[gv.Index]; ok && c*den >= h.sigTotal*num {
+						elig = append(elig, gv)
+					}
+				}
+			}
+			sort.Slice(elig, func(i, j int) bool {
+				a, b := elig[i].Entity.Public(), elig[j].Entity.Public()
+				return bytes.Compare(a[:], b[:]) < 0
+			})
+			var who []string
+			for _, gv := range elig {
+				who = append(who, fmt.Sprintf("(%s, %s)", x.of(gv.Entity.Address()), h.rateOf(height, gv.Entity.Address(), epoch, p)))
+			}
+			h.sum.Count("rewards_signing_entities", fmt.Sprint(len(elig)))
+			addOp("rewards_signing", fmt.Sprintf("(ORewards %s %s %s)", scaleAt(p, epoch), qs(&p.RewardFactorEpochSigned), coqout.List(who)), "ROk")
 		}
-		addOp("rewards_signing", fmt.Sprintf("(ORewards %s %s %s)", scaleAt(p, epoch), qs(&p.RewardFactorEpochSigned), coqout.List(who)), "ROk")
+		h.sigTotal, h.sigBy = 0, map[int]uint64{}
 	}
 	// governance: deposits returned or discarded when proposals close
 	for _, e := range eev {
@@ -1245,7 +1303,7 @@ func main() {
 		*out = d
 	}
 	sum := coqout.NewSummary("one evaluation = one executed block (S on its post-state, K case = the block); distinct_nontrivial = counted blocks that contain at least one successful ledger-changing transaction, an epoch transition, a slash or a non-zero fee carry-over")
-	w := coqout.NewWriter(*out, header, "run_check", "Bool.eqb", 6)
+	w := coqout.NewWriter(*out, header, "run_check_inv", "Bool.eqb", 6)
 	if *replay != "" {
 		var cd caseDesc
 		b, err := os.ReadFile(*replay)
